@@ -5,7 +5,7 @@ from harness import clientsim as cs
 from harness.clientsim import TAGS
 
 PROP = "C09"
-GEN = ["Handlers"]
+GEN = ["Handlers", "Wrappers"]
 VO = ["Properties/C09.vo", "Extract/D_Client.vo"]
 MODULE = "Properties.C09"
 THEOREMS = ["c09_used_zero", "c09_failed_discarded", "c09_checkout", "c09_never_exhausted", "c09_release"]
@@ -145,15 +145,74 @@ def search(ctx):
         if why:
             found.append({"clause": why, "input": {"cfg": repr(c), "pool(max,idle)": pc, "ops": repr(ops), "script": repr(sc), "choices": repr(ch), "clock": clock},
                           "observed": repr(results), "size": len(sc) + len(ch), "case": repr(case)})
-    ctx.search_summary = {"runs": n}
+    # every PooledClient method x every way its call can fail: the connection it failed on is closed and never handed out again
+    m = 0
+    for op, rep in METHOD_OPS:
+        for kind in ("send", "recv", "error_line", "bad_reply"):
+            if kind in ("error_line", "bad_reply") and rep is None:
+                continue
+            m += 1
+            why, detail = method_failure(op, rep, kind)
+            if why:
+                found.append({"clause": why, "input": {"op": repr(op), "failure": kind}, "observed": detail, "size": 1, "case": None,
+                              "method_case": repr((op, rep, kind))})
+    ctx.search_summary = {"runs": n, "method_failure_runs": m}
     found.sort(key=lambda v: v["size"])
     return found[:1]
+
+
+METHOD_OPS = [((0, 0, b"k", b"v", 0, False, None), b"STORED\r\n"), ((0, 1, b"k", b"v", 0, False, None), b"STORED\r\n"), ((0, 2, b"k", b"v", 0, False, None), b"STORED\r\n"),
+              ((0, 3, b"k", b"v", 0, False, None), b"STORED\r\n"), ((0, 4, b"k", b"v", 0, False, None), b"STORED\r\n"),
+              ((1, [(b"a", b"1"), (b"b", b"2")], 0, False, None), b"STORED\r\nSTORED\r\n"), ((2, b"k", b"v", b"1", 0, False, None), b"STORED\r\n"),
+              ((3, b"k", None), b"END\r\n"), ((4, b"k", None, None), b"END\r\n"), ((5, b"k", 5, None), b"END\r\n"), ((6, b"k", 5, None, None), b"END\r\n"),
+              ((7, False, [b"a", b"b"]), b"END\r\n"), ((8, False, [b"a", b"b"]), b"END\r\n"), ((9, b"k", False), b"DELETED\r\n"),
+              ((10, False, [b"a", b"b"], False), b"DELETED\r\nDELETED\r\n"), ((11, b"k", 1, False), b"6\r\n"), ((12, b"k", 1, False), b"4\r\n"),
+              ((13, b"k", 5, False), b"TOUCHED\r\n"), ((14, 0, False), b"OK\r\n"), ((15,), b"VERSION 1\r\n")]
+
+
+def method_failure(op, rep, kind):
+    c = dict(tcp=False, default_noreply=False)
+    pre = (0, 0, b"z", b"0", 0, False, None)
+    post = (3, b"z", None)
+    ops = [pre, op, post]
+    dry = cs.run_pooled(c, (2, 0), [pre], [], [], (), [], {0: b"STORED\r\n"})
+    nsock = sum(1 for e in dry[1] if e[0] != 8)
+    nrecv = sum(1 for e in dry[1] if e[0] == 8)
+    sc, ch, reply = [], [], rep
+    if kind == "send":
+        sc = [0] * nsock + [(TAGS["ConnectionResetError"],)]
+    elif kind == "recv":
+        ch = [1 << 20] * nrecv + [(TAGS["SocketTimeout"],)]
+    elif kind == "error_line":
+        reply = b"SERVER_ERROR out of memory\r\n"
+    else:
+        reply = b"not-a-reply\r\n"
+    r = cs.run_pooled(c, (2, 0), ops, sc, ch, (), [], {0: b"STORED\r\n", 1: reply or b"", 2: b"VALUE z 0 1\r\n0\r\nEND\r\n"})
+    results, world, pool = r[0], r[5], r[6]
+    if results[1][0][0] != "e":
+        return None, None            # this failure kind does not make this method fail (e.g. delete_many ignores unknown lines)
+    used_by = {sid for sid, _ in world.sent_by_op.get(1, [])} or {sid for sid, _ in world.sent_by_op.get(0, [])}
+    for sid in used_by:
+        sk = [x for x in world.socks if x.sid == sid]
+        if sk and not sk[0].closed:
+            return "%r failed (%s) and its connection (socket %d) was left open" % (op, results[1][0][1], sid), repr(results)
+        if any(s2 == sid for s2, _ in world.sent_by_op.get(2, [])):
+            return "the call after the failed %r was sent on the connection it failed on (socket %d)" % (op, sid), repr(results)
+    if results[1][2] != 0:
+        return "%r failed (%s) and its client went back into the pool (free=%d)" % (op, results[1][0][1], results[1][2]), repr(results)
+    if results[2][0] != ("o", ("bytes", b"0")):
+        return "the call after the failed %r returned %r" % (op, results[2][0]), repr(results)
+    return None, None
 
 
 def replay(ctx, obj):
     v = obj.get("violation")
     if not v or not v.get("case"):
         return None
+    if v.get("method_case"):
+        why, detail = method_failure(*eval(v["method_case"]))
+        print(why or "failed connection discarded", detail or "")
+        return bool(why)
     case = eval(v["case"])
     c, pc, ops, sc, ch, rbo, clock = run_case(case)
     r = cs.run_pooled(c, pc, ops, sc, ch, (), clock, rbo)
